@@ -12,6 +12,7 @@ tvars == <<vars, tid, l, pos>>
 
 Vdi == INSTANCE Vdi
 Vhd == INSTANCE Vhd
+Hds == INSTANCE Hds
 
 Traces == ndJsonDeserialize(IOEnv.TRACE_FILE)
 T      == Traces[tid]
@@ -22,8 +23,11 @@ Fn0(s) == [b \in 0..Len(s)-1 |-> s[b + 1]]
 VdiImg(j) == [n |-> j.n, cb |-> 1, map |-> Fn0(j.map), size |-> j.n, parent |-> j.parent]
 VhdImg(j) == [kind |-> j.kind, n |-> j.n, cb |-> j.cb, bat |-> Fn0(j.bat), size |-> j.size, foot511 |-> j.foot511]
 
+HdsImg(j) == [kind |-> j.kind, ver |-> j.ver, n |-> j.n, cb |-> j.cb, bat |-> Fn0(j.bat), size |-> j.size, parent |-> j.parent]
+
 Src(q) == CASE T.fmt = "vdi" -> Vdi!CellSrc(VdiImg(T.img), q)
             [] T.fmt = "vhd" -> Vhd!CellSrc(VhdImg(T.img), q)
+            [] T.fmt = "hds" -> Hds!CellSrc(HdsImg(T.img), q)
 
 Ev == T.events[l]
 
